@@ -181,3 +181,23 @@ def architectures(max_depth, full_depth2, seed):
             for convs in conv_sets:
                 for pool in pools:
                     yield ("%s|%s|%s|p%d" % (sk, ",".join(acts), ";".join("k%ds%dd%dp%s" % c for c in convs), pool), sk, acts, convs, pool)
+
+
+def min_delta_in(model, X, R):
+    """Smallest non-zero |in(x) - in(ref)| over all activation / max-pool inputs, per (example, reference) pair.
+    X (n,4,L), R (n,r,4,L) -> tensor (n, r).  Used to scale the floating-point tolerance: the rescale rule divides by this."""
+    n, r = R.shape[:2]
+    hx = X[:, None].expand(-1, r, -1, -1).reshape(-1, *X.shape[1:])
+    hr = R.reshape(-1, *R.shape[2:])
+    out = torch.full((n * r,), float("inf"), dtype=torch.float64)
+    was = model.training
+    model.eval()
+    with torch.no_grad():
+        for layer in model:
+            if not isinstance(layer, LINEAR_TYPES):
+                d = (hx - hr).abs().reshape(n * r, -1)
+                d = torch.where(d == 0, torch.full_like(d, float("inf")), d)
+                out = torch.minimum(out, d.min(dim=1).values)
+            hx, hr = layer(hx), layer(hr)
+    model.train(was)
+    return out.reshape(n, r)
